@@ -29,7 +29,7 @@ for pid in sorted(os.listdir(base)):
 n = len(rows)
 caught = sum(1 for r in rows if "**missed**" not in r and "not applied" not in r)
 text = ["## 9. Seeded changes: which check catches which", "",
-        "%d seeded changes (two rounds of fresh sub-agents, each given only the property text and a scratch worktree); %d are reported by the property's own check (column 4: the tier that first reported it)." % (n, caught),
+        "%d seeded changes (rounds of fresh sub-agents, each given only the property text, the earlier changes to avoid, and a scratch worktree); %d are reported by the property's own check (column 4: the tier that first reported it)." % (n, caught),
         "Each change compiles and passes the 443 repository tests. `./seedtest` regenerates the result.json files; this table is rewritten by mk_seed_table.py.", "",
         "| change | files | what was changed | caught by | first signature |", "|---|---|---|---|---|"] + rows + [""]
 p = os.path.join(ROOT, "DESIGN.md")
